@@ -145,6 +145,44 @@ def gen(tier, seed):
         if rnd.random() < 0.05 and d:
             ol = d - 1
         cases.append("b64decbuf\t%s\t%s" % (hx(bytes(text)), ol))
+    # ---- the JSON-string, JSON-load and JSON-dump forms must agree with the raw-buffer form
+    def jstr(b):
+        # JSON text of a string holding exactly these bytes (all < 0x80 here; NUL and controls escaped)
+        return '"' + "".join(("\\u%04x" % c) if (c < 32 or c in (34, 92) or c == 127) else chr(c) for c in b) + '"'
+    jt = [b"", b"Zg", b"Zm8", b"Zm9v", b"Zm9vYg", b"Zm9vYmE", b"Zm9vYmFy", b"Zh", b"Zm9", b"Z", b"Zm9vY", b"Zm9v=", b"Zm+v", b"Zm/v", b"Zm 9v"]
+    # embedded NUL: a valid prefix followed by NUL and more text (valid or not), NUL alone, NUL first
+    for pre in (b"Zm9v", b"Zg", b"MTIz", b""):
+        for suf in (b"", b"!!", b"Zm9v", b" trailing junk +/=", b"A"):
+            jt.append(pre + b"\x00" + suf)
+    for _ in range(40 if tier == "quick" else 400):
+        n = rnd.randrange(0, 40)
+        t = bytearray(ord(rnd.choice(ALPHA)) for _ in range(n))
+        if t and rnd.random() < 0.4:
+            t[rnd.randrange(len(t))] = rnd.choice([0, 0, 1, 10, 32, 43, 47, 61, 126])
+        jt.append(bytes(t))
+    for t in jt:
+        need = dlen(len(t))
+        for ol in ("NULL", 0, (need or 0), (need or 0) + 2, max(0, (need or 0) - 1)):
+            cases.append("b64dec\t%s\t%s" % (jstr(t), ol))
+            dist["JSON-string form"] += 1
+        cases.append("b64load\t%s" % jstr(t))
+        dist["JSON-load form"] += 1
+    for v in ('5', 'null', 'true', '[]', '{}', '["Zm9v"]', '{"a":"Zm9v"}', '1.5'):
+        cases.append("b64dec\t%s\tNULL" % v)
+        cases.append("b64dec\t%s\t8" % v)
+        cases.append("b64load\t%s" % v)
+        dist["JSON forms: non-string value"] += 3
+    # load: encodings of JSON texts (valid, invalid, with trailing garbage, with an embedded NUL)
+    for txt in (b'{"a":1}', b'[1,2,3]', b'"s"', b'5', b'{"a":1} ', b'{"a":1}x', b'{"a":1}\x00', b'\x00{"a":1}', b'{"a":"\\u0000"}', b'', b'nul', b'{"a":1,"a":2}', b'{"k":"' + b"v" * 100 + b'"}'):
+        cases.append("b64load\t%s" % jstr(py_enc(txt)))
+        dist["JSON-load form"] += 1
+    for _ in range(30 if tier == "quick" else 300):
+        data = bytes(rnd.getrandbits(8) for _ in range(rnd.randrange(0, 70)))
+        cases.append("b64enc\t%s" % (hx(data) if data else "-"))
+        dist["JSON-encode form"] += 1
+    for v in ('{"b":1,"a":[true,null,"x"]}', '[]', '{}', '"str"', '5', '{"k":"\\u0000"}'):
+        cases.append("b64dump\t%s" % v)
+        dist["JSON-dump form"] += 1
     return cases, dict(dist)
 
 
@@ -153,11 +191,74 @@ def parse_out(o):
     return f
 
 
+def json_oracle(case, out):
+    import json as _json
+    f = case.split("\t")
+    cmd = f[0]
+    if cmd == "b64enc":
+        data = unhx(f[1]) if f[1] != "-" else b""
+        if out != _json.dumps(py_enc(data).decode()):
+            return ("enc-json-wrong", "jose_b64_enc differs from the raw-buffer encoding")
+        return None
+    if cmd == "b64dump":
+        v = _json.loads(f[1])
+        if not isinstance(v, (dict, list)):
+            return None       # scalars: json_dumps without JSON_ENCODE_ANY refuses them
+        want = _json.dumps(py_enc(_json.dumps(v, separators=(",", ":"), sort_keys=True).encode()).decode())
+        if out != want:
+            return ("dump-json-wrong", "jose_b64_enc_dump is not the encoding of the compact sorted dump")
+        return None
+    try:
+        v = _json.loads(f[1])
+    except Exception:
+        return None
+    if not isinstance(v, str):
+        if cmd == "b64dec" and not out.startswith("MAX"):
+            return ("dec-json-nonstring", "jose_b64_dec accepts a JSON value that is not a string")
+        if cmd == "b64load" and out != "ERR":
+            return ("load-json-nonstring", "jose_b64_dec_load accepts a JSON value that is not a string")
+        return None
+    text = v.encode()      # the exact bytes of the JSON string, embedded NUL included
+    want = py_dec(text)
+    if cmd == "b64dec":
+        need = dlen(len(text))
+        o = out.split(" ")
+        if f[2] == "NULL":
+            exp = "MAX" if need is None else str(need)
+            if o[0] != exp:
+                return ("dec-json-query", "JSON-string form: size query %s, the raw-buffer form says %s for this text (%d characters)" % (o[0], exp, len(text)))
+            return None
+        ol = int(f[2])
+        if len(o) < 3 or o[2] != "canary-ok":
+            return ("dec-json-canary", "JSON-string form writes beyond the stated output size")
+        buf = unhx(o[1])
+        if need is None or ol < need or want is None:
+            if o[0] != "MAX":
+                return ("dec-json-accepts", "JSON-string form accepts a text the raw-buffer form rejects (not a canonical encoding / output too small)")
+        elif o[0] != str(len(want)) or buf[:len(want)] != want:
+            return ("dec-json-wrong", "JSON-string form decodes differently from the raw-buffer form")
+        return None
+    if cmd == "b64load":
+        if want is None and out != "ERR":
+            return ("load-json-accepts", "jose_b64_dec_load accepts a text the raw-buffer form rejects")
+        if want is not None and out != "ERR":
+            try:
+                ok = _json.loads(want.decode("utf-8")) if b"\x00" not in want else None
+            except Exception:
+                ok = None
+            if ok is None and want.strip() not in (b"null",):
+                return ("load-json-invalid", "jose_b64_dec_load returns a value for bytes that are not a JSON text")
+        return None
+    return None
+
+
 def oracle(case, out):
     f = case.split("\t")
-    cmd, data, ol = f[0], unhx(f[1]), f[2]
     if out.startswith("CRASH"):
         return ("crash:" + out[:80], "implementation crashed or sanitizer report: " + out)
+    if f[0] in ("b64dec", "b64load", "b64enc", "b64dump"):
+        return json_oracle(case, out)
+    cmd, data, ol = f[0], unhx(f[1]), f[2]
     o = out.split(" ")
     if cmd == "b64encbuf":
         want = py_enc(data)
@@ -203,14 +304,14 @@ def oracle(case, out):
 
 def nontrivial(case, out):
     f = case.split("\t")
-    return f[1] != "-" and not out.startswith("CRASH")
+    return f[1] not in ("-", '""') and not out.startswith("CRASH")
 
 
 def correspond(ctx):
     cases, dist = gen(ctx["tier"], ctx["seed"])
     st = runner.standard(
         ctx, cases, oracle, nontrivial,
-        rule="enumerated + seeded random b64encbuf/b64decbuf calls on canaried buffers; a case is non-trivial when its input is non-empty; distinct = distinct case lines",
+        rule="enumerated + seeded random b64encbuf/b64decbuf calls on canaried buffers, and the JSON-string / JSON-load / JSON-encode / JSON-dump forms on the same kind of texts (including JSON strings with embedded NUL, non-string values, encodings of invalid JSON); a case is non-trivial when its input is non-empty; distinct = distinct case lines",
         dist=dist,
         exhaustive_subspaces=["encode: all byte strings of length <= 2", "decode: all texts of length <= 4 over 12 alphabet symbols + 8 foreign bytes",
                               "decode: every byte value at every position of 3 base texts", "output sizes 0..needed+1 for lengths 0..13"])
